@@ -6,6 +6,7 @@
 //!   <idx> <kind> <named> <holder> <sup> | <script> | <op> ; <op> ; ...
 //!     kind   0 spawn  1 spawn_linked  2 spawn_instant  3 spawn_linked_instant
 //!            8 ActorCell::spawn_linked   9 spawn_linked_remote with a LOCAL id (refused before anything exists)
+//!            10 spawn_linked_remote with a REMOTE id (the name may be the name of a live local holder)
 //!            4..7 the same four through the thread-local API (ThreadLocalActor::spawn*, spawn_local,
 //!            ActorCell::spawn_local_linked) on a ThreadLocalActorSpawner with its own OS thread
 //!     named  0|1      holder 0|1 (another running actor already owns the name)
@@ -512,6 +513,23 @@ async fn run_scenario(line: &str) -> String {
                             }
                             Err(_) => *res.lock().unwrap() = Some(false),
                         }
+                    }
+                    "10" => {
+                        // a REMOTE id: the cell carries the name but is never enrolled in the registries
+                        let sh2 = sh.clone();
+                        let nm = name.clone();
+                        let h = tokio::spawn(async move {
+                            let r = ractor::ActorRuntime::<A>::spawn_linked_remote(
+                                nm,
+                                A,
+                                ActorId::Remote { node_id: 7, pid: 4242 },
+                                sh2,
+                                supc.expect("sup"),
+                            )
+                            .await;
+                            *res.lock().unwrap() = Some(r.is_ok());
+                        });
+                        w.starter = Some(h.abort_handle());
                     }
                     "9" => {
                         // spawn_linked_remote refuses a local id before anything is created
